@@ -779,13 +779,16 @@ def rule_pure(ctx):
                 else:
                     unk_call.append(d)
             elif isinstance(n, ast.Name) and isinstance(n.ctx, ast.Load) and n.id not in local:
-                if n.id in sib or n.id in ("np", "numpy", "types", "len", "range", "min", "max", "int") or n.id in mod.imports:
+                if n.id in sib or n.id in ("np", "numpy", "types", "len", "range", "min", "max", "int", "zip", "enumerate", "reversed", "abs", "bool", "float") \
+                        or n.id in mod.imports:
                     continue
                 g = mod.globals.get(n.id)
                 if g is not None and const_int(g) is not None:
                     continue
                 # a tuple of integer literals bound once at module level is a constant too (immutable, never rebound)
-                if isinstance(g, ast.Tuple) and g.elts and all(const_int(x) is not None for x in g.elts) and \
+                def _ctuple(x, depth=0):
+                    return const_int(x) is not None or (depth < 2 and isinstance(x, ast.Tuple) and x.elts and all(_ctuple(y, depth + 1) for y in x.elts))
+                if isinstance(g, ast.Tuple) and g.elts and all(_ctuple(x) for x in g.elts) and \
                         sum(1 for x in ast.walk(mod.tree) if isinstance(x, ast.Name) and x.id == n.id and isinstance(x.ctx, (ast.Store, ast.Del))) == 1:
                     continue
                 bad_glob.append(n.id)
@@ -907,8 +910,13 @@ def rule_blocks(ctx):
         if not fb:
             ctx.ob("blocksize", f, f.node, "%s: np.frombuffer(key[: nblocks*B])" % name, "whole blocks are read through one typed view", False)
         m_ok = [t for t in masks if (t[1] == "BitAnd" and Lin.const(B - 1).key() in (t[2], t[3])) or (t[1] == "Mod" and t[3] == Lin.const(B).key())]
-        ctx.ob("blocksize", f, f.node, "%s: residue = len(key) & %d" % (name, B - 1), "tail length is len(key) mod %d" % B, len(m_ok) >= 1,
-               "" if m_ok else "mask terms: %s" % [(t[1], t[2], t[3]) for t in masks])
+        # ... or the tail is taken as the slice key[nblocks*B:], whose length is len(key) - B*(len(key)//B)
+        tails = [e for e in w.events if e.kind == "assign" and isinstance(getattr(e, "value", None), Bytes) and e.value.root == keyp
+                 and e.value.start == NB.scale(B) and (e.value.stop is None or e.value.stop == L)]
+        r_ok = len(m_ok) >= 1 or bool(tails)
+        ctx.ob("blocksize", f, f.node, "%s: residue = len(key) & %d" % (name, B - 1), "tail length is len(key) mod %d" % B,
+               True if r_ok else (False if masks else None),
+               "" if r_ok else ("mask terms: %s" % [(t[1], t[2], t[3]) for t in masks] if masks else "no residue computation (mask, modulus or tail slice) is read from this shape"))
         # tail slice key[nblocks*B:]
         tails = []
         for n in walk_no_nested(f.node):
